@@ -392,7 +392,9 @@ class C10(Prop):
             "or in the dump; non-trivial = a history with both a refused and an accepted call / a document with a src entry")
     assumptions = ["json.load keeps what json.dump wrote (documents reach the library as text with sorted keys, so that dict iteration order "
                    "is the same on both sides)", "str.lower() is modelled for ASCII letters only (signing keys are hex strings)",
-                   "image objects are not mutated after they were filed"]
+                   "image objects are not mutated after they were filed",
+                   "the image table / 0.3 manifest of a document is a parsed JSON object: unique keys on every level (hypotheses OutNodup / Nodup of "
+                   "the refile theorems); C10_keys needs no such hypothesis"]
     partial = {"C10_rpms_refile_general_partial": "hypothesis: the other source-package keys of the same [variant][arch] table are non-empty "
                "and have a canonical N-E:V-R.A different from this one's (two texts of one package in one table write the same slot, the "
                "later wins: C10_rpms_refile_collision_witness); C10_rpms_refile is the instance for canonical keys"}
@@ -757,7 +759,11 @@ MANIFEST = dict(
          "(empty tables included). C10_images_refused / C10_rpms_refused: an add under a non-binary name returns ValueError and the IDENTICAL "
          "state. C10_images_refile: for a <= 1.1 document the filings of the loaded manifest are exactly: the k-th image dictionary, read as "
          "one object, under (variant, b) for every binary arch key b of its own variant when it stood under src, under its own arch otherwise. "
-         "C10_rpms_refile: [variant][arch][srpm][srpm] holds the source record built from the src table entry. C10_written: the written "
-         "documents carry exactly those arch keys.",
+         "C10_images_refile_src / _other: the same in the property's words (every binary arch key of the SAME variant, nowhere else). "
+         "C10_images_old_doc_arches: a <= 1.1 document that loads needs only binary keys (so one with nosrc / unknown keys next to images is refused). "
+         "C10_rpms_refile: [variant][arch][srpm][srpm] holds {category source, path and lower-cased sigkey FROM THE SRC TABLE ENTRY} for every binary "
+         "arch whose table lists packages of srpm (canonical keys; general form with the canonical N-E:V-R.A of the key: "
+         "C10_rpms_refile_general_partial, excluded region witnessed by C10_rpms_refile_collision_witness). C10_images_written / C10_rpms_written: "
+         "the documents serialize builds carry only binary arch keys.",
     note="A variant with only a `src` entry vanishes on load (outside the claim, recorded as an observation).",
     ref="7/C10")
